@@ -689,6 +689,10 @@ let rec handle (line : string) : string =
     let script = List.map reply_of_str rest in
     let (tr, o) = (cop_of_str op).run_s script in
     Printf.sprintf "%s => %s" (String.concat " " (List.map str_msg tr)) o
+  | "CLS" :: k :: rest ->
+    (* long-lived Sign objects are the implementation's business: the model is CL with the handle prefixes dropped *)
+    let strip o = if String.length o > 2 && String.sub o 0 2 = "B:" then String.sub o 2 (String.length o - 2) else o in
+    handle (String.concat " " ("CL" :: k :: List.map strip rest))
   | "CL" :: k :: rest ->
     let (signs, rest) = parse_signs (int_of_string k) rest in
     let (prior, ops) = split_at "|" rest in
